@@ -940,6 +940,16 @@ func c05Shape(t *sigT) string {
 }
 
 func runC05(r *Rand, tier string, o *Out) {
+	// an interface of the package as the type of a parameter and of a result: objects of the service and
+	// objects of the client's side go to the stub and come back
+	if out := o.Do("P", "gen.objects 1", true); out != "ok" {
+		why := strings.TrimPrefix(out, "fail:")
+		if k := strings.Index(why, ":"); k > 0 {
+			why = why[:k]
+		}
+		o.Fail("objects passed to the generated stub and asked back: "+why, "gen.objects 1 => "+out+" "+tail(lastFailDetail, 400))
+	}
+	o.Count("scenario:objects-as-arguments-and-results")
 	npk, nval := 8, 3
 	if tier == "thorough" {
 		npk, nval = 80, 6
